@@ -6,6 +6,7 @@ import (
 	"fmt"
 	"go/token"
 	"go/types"
+	"regexp"
 	"sort"
 	"strconv"
 	"strings"
@@ -289,6 +290,8 @@ func rowCases(p *Prog, v ssa.Value, at ssa.Instruction) (map[string]string, stri
 	}
 	return out, ""
 }
+
+var sameFieldCompare = regexp.MustCompile(`^\((\w+)\((n)\)==(\w+)\((at\(.*\))\)\)$`)
 
 const (
 	wantRootLine  = `cat(name(n),"\n")`
@@ -911,6 +914,11 @@ func ruleC01SEL(w *World) []Ob {
 		})
 		want := "(n==at(children(parent(n)),(len(children(parent(n)))-1)))"
 		g := got["main"]
+		// comparing one and the same field of both nodes is accepted as well (whether that field is
+		// history-free is GLOB-1's business, not this rule's)
+		if m := sameFieldCompare.FindStringSubmatch(normTerm(g)); m != nil && m[1] == m[3] {
+			g = "(" + m[2] + "==" + m[4] + ")"
+		}
 		if normTerm(g) == normTerm(want) && got["nil:parent(n)"] == "false" {
 			l.ok(d.FuncID(fn), "last child = identical to the parent's last element", d.Pos(fn.Pos()), "n == n.parent.children[len(n.parent.children)-1]; false without a parent", true, "last")
 		} else {
